@@ -105,7 +105,12 @@ func (p *Parser) parseTransaction() *ast.Transaction {
 			// a secondary date without year ("=01/16") starts like a number
 			p.current = p.lexer.RescanAsDate(p.current.Pos)
 		}
+		// a secondary date without year takes the year of the primary date,
+		// whatever a Y directive says
+		defaultYear := p.defaultYear
+		p.defaultYear = tx.Date.Year
 		date2 := p.parseDate()
+		p.defaultYear = defaultYear
 		if date2 != nil {
 			tx.Date2 = date2
 		}
